@@ -782,10 +782,11 @@ impl<'a> Compiler<'a> {
 
                 self.compile_begin();
                 const CLOSURE_MASK: u64 = 0xEFEFEFEF;
-                // card indices are only unique within a module (the function index is relative to
-                // the module): mix in the handle of the enclosing function, which is program-wide
-                let function_handle = self.current_index.as_handle()
-                    + self.current_function
+                // the function index of a card index is relative to the module: identify the
+                // enclosing function by its handle, which is program-wide, instead.
+                // (mixing in both would cancel out whenever the two indices are equal)
+                let function_handle = self.current_function
+                    + self.current_index.card_handle()
                     + Handle::from_u64(CLOSURE_MASK);
                 let arity = embedded_function.arguments.len() as u32;
                 let handle = u32::try_from(self.program.bytecode.len())
